@@ -1,22 +1,32 @@
 CFG = dict(
     id="C15", props="Props/C15.v", harness="c15", shims=["c2--c15.go"],
     trusted_base=[
-        "std++ gmap (axiom-free) for the session table",
-        "the harness observes a session being 'touched' through Session.RemoteAddr(), its key material through keys.Public, "
-        "handler delivery through the public Server.New / Session.Receive / Server.Shutdown callbacks run by the real Server.listen loop",
-        "Server, Listener, Proxy and Session values are constructed by the shim without sockets; talk/talkSub/accept are the real functions",
+        "std++ gmap (axiom-free) for the session table and the proxy's client table",
+        "the harness observes a session being 'touched' through Session.RemoteAddr(), its key material through keys.Public, its queue through the "
+        "send channel, handler delivery through the public Server.New / Session.Receive / Server.Shutdown callbacks run by the real Server.listen loop",
+        "Server, Listener, Proxy and Session values are constructed by the shim without sockets; Listener.talk/talkSub, Server.Session/Sessions/Remove, "
+        "Session.Send, Proxy.talk/talkSub/accept are the real functions",
+        "key material used by the harness is never a valid curve point (KeyPair.Sync fails, IsSynced stays false): receiveSingle's keySessionSync therefore "
+        "always reads the packet's key into keys.Public, which is what the model does for SvComplete+FlagCrypt",
     ],
     assumptions=[
-        "dispatch / unknown-device / outbound theorems assume ID.Hash is injective on the registered IDs plus the IDs the packet names "
-        "(the refutation theorem shows the statement is false without it; the real hash collides after ~1.5e5 random IDs)",
-        "queues hold fewer than limits.Packets small packets (Session.next hands over the whole queue); no fragments, oneshot packets, channels, SvShutdown traffic",
+        "C15_hello_registers (a well-formed hello of an unregistered device registers it) assumes ID.Hash injective on the registered IDs plus the new one; "
+        "C15_collision_refuted shows the bare statement false with a real colliding pair (the structural known finding). No other theorem has a no-collision hypothesis",
+        "queues hold fewer than limits.Packets small packets (Session.next hands over the whole queue); not modelled: fragments, oneshot packets, Multi inside Multi, "
+        "channels (clientSet/clientClear), SvShutdown traffic, the proxy flag, Server.Remove(id, true)",
+        "'the connection serves device d' is read as: the incoming packet names d (top level or sub-packet) or lists hash(d) as a tag; tags are 32-bit hashes on the wire, "
+        "so a tag cannot tell colliding devices apart",
     ],
-    level_text="Theorems over the Gallina model of ID.Hash, the hash-keyed table, Listener.talk/talkSub, conn.resolve/processMultiple, receive's ID check, "
-               "Server.Session/Sessions/Remove and Proxy.accept/talk/talkSub for ALL tables, packets, batches, tag lists and histories: a packet only has "
-               "effects in the session of the device it names, an unknown device gets a re-registration request and nothing else happens, outbound packets only "
-               "reach a connection that named their device (all under hash-injectivity on the IDs involved), the repaired Server.Session and Proxy.accept return/"
-               "use the named device's entry or nothing unconditionally, and an explicit refutation with two real colliding IDs when injectivity is dropped. "
+    level_text="Theorems over the Gallina model of ID.Hash (exact), the hash-keyed table, Listener.talk/talkSub, conn.resolve/processMultiple, receive's ID check, "
+               "Server.Session/Sessions/Remove/send and Proxy.accept/talk/talkSub, for ALL tables satisfying the table invariant (every reachable table does: induction over "
+               "all histories of register/traffic/send/lookup/remove), ALL packets, batch compositions and tag lists, ALL sets of IDs including colliding ones: every effect "
+               "(address/last-seen update, key update, handler call, tag fetch) happens in the session whose ID is the device the (sub-)packet names; a non-hello packet of an "
+               "unregistered device gets a re-registration request and changes nothing; outbound packets name a device the incoming packet named or tagged; Server.Session "
+               "returns the device's own session or nothing (and finds every registered device); Remove forgets; the same for the proxy tables. Registration itself is proved "
+               "under hash-injectivity and refuted without it with a real colliding pair (constant checked by vm_compute and against ID.Hash on every run). The code as it "
+               "was before the four fix: commits is the chk=false instance of the same definitions; its misbehaviour is stated as C15_old_code_refuted. "
                "The model is tied to /repo by generated histories run through the real functions and through the model inside Coq.",
-    level_note="Proof is about the model; the tie to the code is differential (strength = the generator's, distribution in the evidence). The table being keyed "
-               "by a 32-bit hash is a structural defect recorded as known findings (reproduced every run with a colliding pair found by birthday search).",
+    level_note="Proof is about the model; the tie to the code is differential (strength = the generator's, distribution in the evidence). The tables being keyed "
+               "by a 32-bit hash remains a structural defect: a second device with a colliding ID can never register (known findings, reproduced every run with pairs "
+               "found by birthday search from the seed).",
 )
